@@ -502,20 +502,28 @@ func pParseReal(data []byte) string {
 		// pgproto3 hands the client a view into its read buffer that is only valid until the next Receive:
 		// the next message overwrites these bytes while earlier changes are still queued downstream. The
 		// decoded change must not alias them, so the input is overwritten before the result is looked at.
+		dump := func() string {
+			pr := wm.Pr
+			cols := make(map[string]parserCV, len(pr.Columns))
+			for k, v := range pr.Columns {
+				cols[k] = parserCV{v.Value, v.Type, v.Quoted}
+			}
+			old := make(map[string]parserCV, len(pr.OldColumns))
+			for k, v := range pr.OldColumns {
+				old[k] = parserCV{v.Value, v.Type, v.Quoted}
+			}
+			return fmt.Sprintf("ok op=%s txn=%s rel=%s ntd=%s cols=%s old=%s",
+				hexs(pr.Operation), hexs(pr.Transaction), hexs(pr.Relation), pB01(pr.NoTupleData), pDumpCols(cols), pDumpCols(old))
+		}
+		before := dump()
 		for i := range data {
 			data[i] = 'Z'
 		}
-		pr := wm.Pr
-		cols := make(map[string]parserCV, len(pr.Columns))
-		for k, v := range pr.Columns {
-			cols[k] = parserCV{v.Value, v.Type, v.Quoted}
+		after := dump()
+		if after != before {
+			after += " ALIASED"
 		}
-		old := make(map[string]parserCV, len(pr.OldColumns))
-		for k, v := range pr.OldColumns {
-			old[k] = parserCV{v.Value, v.Type, v.Quoted}
-		}
-		ch <- fmt.Sprintf("ok op=%s txn=%s rel=%s ntd=%s cols=%s old=%s",
-			hexs(pr.Operation), hexs(pr.Transaction), hexs(pr.Relation), pB01(pr.NoTupleData), pDumpCols(cols), pDumpCols(old))
+		ch <- after
 	}()
 	select {
 	case o := <-ch:
@@ -1040,6 +1048,12 @@ func parserMonitor(lines, outs []string, m *Model) []Violation {
 		}
 		// (F4, bit strings decoded as '…, is repaired: such a deviation is a plain violation now)
 		switch {
+		case strings.HasSuffix(got, " ALIASED"):
+			// the decoded change still points into the bytes it was decoded from; pgx overwrites them on its next read
+			// while the change is queued in the filter / partitioner / marshaller: what is rendered is the NEXT message's bytes
+			msg := "the decoded change aliases the receive buffer: after the buffer was overwritten (as the next read does) it reads " + pShort(got) + " instead of " + pShort(e)
+			add(Violation{"C09", msg, ""})
+			add(Violation{"C10", "a record rendered after the next message was received shows that message's bytes - " + msg, ""})
 		case pHasEmptyTuple(ch):
 			add(Violation{"C09", "printed tuple without attributes rejected/misdecoded on " + pShort(w[2]) + ": got " + pShort(got) + " want " + pShort(e), "empty_tuple"})
 		default:
